@@ -580,6 +580,18 @@ example : ∃ e ∈ G.ctorTable, e.key = "CNOT" ∧
     (⟨.scalar 1, .scalar 0, .absent, .absent⟩ : Req).viaCircuit = ⟨.scalar 1, .scalar 0, .none, .none⟩ := by
   refine ⟨_, List.mem_of_getElem? (i := 16) rfl, by decide, by decide, by decide⟩
 
+/-- **The circuit path does not depend on the other gates of the circuit**: with the regenerated rule of
+`QubitCircuit._get_gate_unitary`, `propagators(expand=False)` of ANY circuit `pre ++ [g] ++ post` reports at the position
+of `g` the gate's own `get_compact_qobj()` (`own g`, whatever `own` is — the constructor model above, the path theorems),
+and as many matrices as gates -/
+theorem circuit_path_history_independent {α β : Type} (own : α → β) (pre post : List α) (g : α) :
+    ∃ l, propagatorsCompact G.circuitGateUnitary own (pre ++ g :: post) = some l ∧
+      l[pre.length]? = some (own g) ∧ l.length = pre.length + 1 + post.length := by
+  have hr : G.circuitGateUnitary = "gate.get_compact_qobj()" := by decide
+  refine ⟨(pre ++ g :: post).map own, by simp [propagatorsCompact, hr], by simp, by simp; omega⟩
+
+example : propagatorsCompact G.circuitGateUnitary (fun n : Nat => n * n) [2, 3, 5] = some [4, 9, 25] := by decide
+
 /-- **The matrix of a class that reads `control_value`** (`ControlledGate.get_compact_qobj`, i.e. ControlledGate itself
 and CX, CY, CS, CT, CRX, CRY, CRZ): for an object with `m` listed controls and control value `v < 2^m`, whatever the
 target gate's matrix `U`, it is `ctrlN m v U` on the qubits (controls 0..m-1 in listed order — first listed most
